@@ -214,6 +214,88 @@ def updated_leaves_case(d, part, parallel_cascade=1):
     c02.compare_trees(got, want, 1, kind, bad, True, final)
 
 
+def retile_same_means_case(d, part, parallel_cascade=1):
+    """Cascade; then one leaf is written again with two pixels of one 2x2 block moved apart by equal amounts (every
+    block mean, hence every parent pixel, stays exactly what it was, while the leaf's range widens far beyond the old
+    one); cascade again: the ranges recorded above that leaf follow."""
+    from toasty.merge import cascade_images, averaging_merger
+    from toasty.pyramid import PyramidIO
+
+    kind = "fits-F32"
+    cfg = {"retile_same_means": True, "start": 2, "parallel": parallel_cascade}
+    part.case(nontrivial=True)
+
+    def bad(clause, detail):
+        part.violation("%s/after-retile-with-unchanged-means/%s" % (clause, kind), "%r: %s" % (cfg, detail), cfg)
+
+    root = os.path.join(d, "rs")
+    shutil.rmtree(root, ignore_errors=True)
+    pio = PyramidIO(root, default_format="fits")
+    yy, xx = np.mgrid[0:256, 0:256]
+    leaves = {}
+    for y in range(4):
+        for x in range(4):
+            if (x + y) % 3 != 2:
+                a = ((yy * 7 + xx * 3) % 1000 + 1000.0 * (y * 4 + x)).astype("f4")  # integers: sums and means exact
+                a[40:44, 100:140] = np.nan
+                leaves[(2, x, y)] = a
+    try:
+        with quiet():
+            c02.write_leaves(pio, leaves, "fits")
+            cascade_images(pio, 2, averaging_merger, parallel=parallel_cascade)
+            b = leaves[(2, 3, 1)].copy()
+            b[10, 10] += 1.0e6
+            b[10, 11] -= 1.0e6
+            b[200, 30] -= 3.0e6
+            b[201, 30] += 3.0e6
+            leaves[(2, 3, 1)] = b
+            c02.write_leaves(pio, {(2, 3, 1): b}, "fits")
+            cascade_images(pio, 2, averaging_merger, parallel=parallel_cascade)
+    except Exception as e:
+        bad("raises:%s" % type(e).__name__, repr(e))
+        return
+    got = c02.read_tree(root, "fits")
+    want = c02.expected_tree(leaves, 2, kind)
+    c02.compare_trees(got, want, 2, kind, bad, True, leaves)
+
+
+def piecewise_case(d, part, parallel=1):
+    """The pyramid cascaded in pieces: each level-1 sub-pyramid on its own (Pyramid.subpyramid + walk with the
+    merger's callback), then the top.  The tree, headers included, is that of one cascade."""
+    from toasty.merge import cascade_images, averaging_merger, TileMerger
+    from toasty.pyramid import PyramidIO, Pyramid, Pos
+
+    kind = "fits-F32"
+    cfg = {"piecewise": True, "start": 3, "parallel": parallel}
+    part.case(nontrivial=True)
+
+    def bad(clause, detail):
+        part.violation("%s/piecewise-cascade/%s" % (clause, kind), "%r: %s" % (cfg, detail), cfg)
+
+    root = os.path.join(d, "pw")
+    shutil.rmtree(root, ignore_errors=True)
+    pio = PyramidIO(root, default_format="fits")
+    leaves = {}
+    for y in range(8):
+        for x in range(8):
+            if (3 * x + y) % 5 != 0:
+                leaves[(3, x, y)] = c02.leaf(y * 8 + x, kind)
+    try:
+        with quiet():
+            c02.write_leaves(pio, leaves, "fits")
+            for apex in ((1, 1, 0), (1, 0, 1), (1, 0, 0), (1, 1, 1)):
+                pyr = Pyramid.new_generic(3)
+                pyr.subpyramid(Pos(*apex))
+                pyr.walk(TileMerger(pio, averaging_merger).walk_callback, parallel=parallel)
+            cascade_images(pio, 1, averaging_merger, parallel=parallel)
+    except Exception as e:
+        bad("raises:%s" % type(e).__name__, repr(e))
+        return
+    got = c02.read_tree(root, "fits")
+    want = c02.expected_tree(leaves, 3, kind)
+    c02.compare_trees(got, want, 3, kind, bad, True, leaves)
+
+
 def toast_fits_case(d, part):
     """FITS auto-tiling in TOAST mode of two images in different parts of the sky, the first one
     holding the extremes: the root tile, the returned description and the WTML must carry the range
@@ -290,6 +372,8 @@ def _builder_job(job):
                 builder_case(d, start, pop, part, nanleaf, nan_file=True)
         updated_leaves_case(d, part)
         if job and job[0][0] == 1 and len(job[0][1]) == 1:
+            retile_same_means_case(d, part)
+            piecewise_case(d, part)
             toast_fits_case(d, part)
             mixed_precision_case(d, part)
         part.sample({"builder_cascade": True, "start": job[0][0], "population": list(job[0][1]), "all_nan_leaf": job[0][2]})
@@ -308,7 +392,7 @@ def run(tier, seed):
     rep.rule = (
         "every sparse FITS leaf population of the C02 family (depth 1: all 16 subsets; depth 2: %d populations%s), serial cascade: DATAMIN/DATAMAX of "
         "every tile vs the finite leaf range beneath it, ImageSet and WTML range vs the root; parallel cascade under the virtual scheduler, all "
-        "interleavings, headers included in the tree comparison; states = canonical states of the explorations; non-trivial = sparse population"
+        "interleavings, headers included in the tree comparison; a leaf re-written with unchanged 2x2 block means and a far wider range, cascaded again; the depth-3 pyramid cascaded in pieces (four sub-pyramid walks, then the top); states = canonical states of the explorations; non-trivial = sparse population"
         % (len(c02.populations(tier, 2)), "; depth-3 chains" if tier == "thorough" else "")
     )
     rep.assumptions = stages.ASSUMPTIONS + ["leaves are written by toasty's own write_image (so their headers carry the array's finite range)", "single-precision rounding tolerance 2e-7 relative"]
@@ -344,6 +428,13 @@ def replay(payload):
         part = Part()
         with scratch("c14r") as d:
             mixed_precision_case(d, part)
+        for sig, (detail, _) in part.violations.items():
+            print("REPLAY-FAIL", sig, detail[:400])
+        return 1 if part.violations else 0
+    if r.get("retile_same_means") or r.get("piecewise"):
+        part = Part()
+        with scratch("c14r") as d:
+            (retile_same_means_case if r.get("retile_same_means") else piecewise_case)(d, part, r.get("parallel", 1))
         for sig, (detail, _) in part.violations.items():
             print("REPLAY-FAIL", sig, detail[:400])
         return 1 if part.violations else 0
